@@ -193,7 +193,8 @@ class StochasticSolver(ABC):
             step_trace[n_epoch + 1] = step
 
             # Check convergence
-            failed_epoch = f_est > f_est_prev
+            # An estimate that is not a number is a failed epoch as well
+            failed_epoch = f_est > f_est_prev or np.isnan(f_est)
             self._nfails += failed_epoch
 
             f_est_tol_test = f_est < self._f_est_tol
